@@ -14,7 +14,7 @@ PROPS = {
 
 PROPS["C07"] = {
     "modules": ["Hertz.Props.C07"],
-    "rule": "Every string of <=7 (quick) / <=9 (thorough) tokens over {/ . a %2e %2f % \\} through normalizePath and CleanPath, "
+    "rule": "Every string of <=7 (quick) / <=9 (thorough) tokens over {/ . a %2e %2f % \\} through normalizePath and CleanPath, paths of every length 90..160 (and up to 400) around CleanPath's 128-byte stack buffer behind six prefixes that need rewriting, "
             "plus random longer paths built from a segment vocabulary (.., ., %2e%2E, %2f, %252e, ..., random) with mutations.",
     "exhaustive_note": "all token strings up to the stated length are enumerated completely (1.0M strings in quick)",
     "level_text": "Containment (leading slash, no '..' segment, no inner empty or '.' segment) proved in Lean for the model of normalizePath "
@@ -251,7 +251,7 @@ PROPS["C11"] = {
                   "fixed/chunked/identity bodies, limit) are compared with the real code on every case; theorems for all inputs: the size limit is enforced on every accepted "
                   "response, bodiless statuses never carry a body. Spec step: every written request is read identically by the strict decoder, by the model of hertz's own "
                   "server reader and by net/http; every conforming response comes back with the same status, fields and body.",
-    "level_note": _H1_NOTE + " HostClient.Do's pool/retry logic is C10; multipart bodies are mime/multipart's and only re-parsed by net/http; response streaming mode reuses the "
+    "level_note": _H1_NOTE + " HostClient.Do's pool/retry logic is C10; multipart uploads (fields, file readers delivering content in pieces around the 512-byte sniffing buffer) are written by the real code and decoded by net/http and by hertz's own reader, the multipart syntax itself is mime/multipart's and is not modelled; response streaming mode reuses the "
                   "C14 body-stream model and is not separately compared here.",
     "assumptions": ["net/http.ReadRequest as second opinion", "header values set by the application are free of control bytes (CR/LF are C05; NUL etc. are written verbatim)"],
 }
